@@ -65,7 +65,7 @@ func oddSegment(p string) bool {
 func c13(args []string) {
 	c := chk.New("C13", "exploration", args)
 	c.Build(false)
-	c.Rule("[additional files whose destination exists: two consecutive tasks creating a side file of the same name, and a second run over a stale side file - the file of the latest task is the one that stays] (every fifth plain case carries an extension spec on the out-port placeholder, {o:out|.dat}, beside its SetOut pattern; a family of cases has a tagging component in front so that the input carries three tags; a family has additional files with blanks and shell metacharacters in their names) one-task workflows, one child per case, each in a fresh directory three levels below its scratch root: the output path and the input path are drawn from the grammar prefix {'', ./, ../, ../../, ABS/} x 0-2 directory segments {d, d.x, a-b_c, 0, ..., d.., ..d, __parent__, __fsroot__, x__parent__y, .hid} x file names {f, f.txt, .h, f..g, __parent__, a__fsroot__b, ..x} (thorough: every grammar path as output and as input; quick: a sample) plus random long paths, input paths that leave a symlinked directory with '..' (a decoy file sits at the lexically cleaned path) additional files that are symbolic links, inputs that reach the command through a joined in-port (absolute / parent-relative members), processes that have a streaming out-port beside the judged file output, and a dangling symbolic link already sitting at the declared output path; destination directories of ../ and absolute outputs are pre-created, sub-directories of the working directory are not; one case in five is a Go function interpreting the same protocol in-process, a further set are Go functions that write through the documented OutIP(port).Write() API; half of the command cases create additional files (one in a not yet existing sub-directory, one sorting after it); oracle: after exit 0 the unique content written at the output placeholder is found at exactly clean(wd/P) (or P if absolute) and nowhere else below the scratch root, the command could read its input through the input placeholder, every additional file is at the same relative place under the working directory. distinct_nontrivial = distinct (output path, input path, extras, command/Go function) cases that ran to completion")
+	c.Rule("[process names] one case in seven runs under a process name of 203-211 characters or one containing / , blanks or colons; [additional files whose destination exists: two consecutive tasks creating a side file of the same name, and a second run over a stale side file - the file of the latest task is the one that stays] (every fifth plain case carries an extension spec on the out-port placeholder, {o:out|.dat}, beside its SetOut pattern; a family of cases has a tagging component in front so that the input carries three tags; a family has additional files with blanks and shell metacharacters in their names) one-task workflows, one child per case, each in a fresh directory three levels below its scratch root: the output path and the input path are drawn from the grammar prefix {'', ./, ../, ../../, ABS/} x 0-2 directory segments {d, d.x, a-b_c, 0, ..., d.., ..d, __parent__, __fsroot__, x__parent__y, .hid} x file names {f, f.txt, .h, f..g, __parent__, a__fsroot__b, ..x} (thorough: every grammar path as output and as input; quick: a sample) plus random long paths, input paths that leave a symlinked directory with '..' (a decoy file sits at the lexically cleaned path) additional files that are symbolic links, inputs that reach the command through a joined in-port (absolute / parent-relative members), processes that have a streaming out-port beside the judged file output, and a dangling symbolic link already sitting at the declared output path; destination directories of ../ and absolute outputs are pre-created, sub-directories of the working directory are not; one case in five is a Go function interpreting the same protocol in-process, a further set are Go functions that write through the documented OutIP(port).Write() API; half of the command cases create additional files (one in a not yet existing sub-directory, one sorting after it); oracle: after exit 0 the unique content written at the output placeholder is found at exactly clean(wd/P) (or P if absolute) and nowhere else below the scratch root, the command could read its input through the input placeholder, every additional file is at the same relative place under the working directory. distinct_nontrivial = distinct (output path, input path, extras, command/Go function) cases that ran to completion")
 	c.Assume("scratch root, working directory and absolute area are on one file system", "paths with a directory segment ending in '..' (fixed defect 133a9ef: '../' was matched as a substring) carry their own signature suffix so that a regression there is told apart from other failures")
 	rng := c.Rand("c13")
 	g := c13Grammar()
@@ -223,6 +223,14 @@ func c13(args []string) {
 			s.Links = map[string]string{"lnk": "store/proj/data"}
 			s.Dirs = append(s.Dirs, "store/proj/data")
 			s.Sources = map[string]string{"store/proj/ref/i.txt": "input of case\n", "ref/i.txt": "DECOY at the lexically cleaned path\n"}
+		}
+		if i%7 == 3 && !pc.join && !pc.stream && !pc.tagged && !pc.wapi {
+			// the task's working directory is named after its process: names that are long, or that contain characters a
+			// directory name cannot hold, still give a directory directly below the working directory from which ../<input>
+			// and the encoded output path resolve
+			pname := []string{strings.Repeat("n", 202) + fmt.Sprint(i%10), "qc/step", strings.Repeat("Long_Name-", 21) + "x", "a b:c", "grp/sub/deep.er"}[(i/7)%5]
+			s.Procs[1].Name = pname
+			s.Conns[0].To = pname + ".in"
 		}
 		cs := &run.Case{Root: root, Bin: c.Bin, Spec: s, WdRel: wdRel, Behav: behav, Env: map[string]string{"SCIPIPE_BUFSIZE": "4"}}
 		c.Eval(1)
